@@ -2,11 +2,12 @@
 import asyncio
 
 from sim.bus import INIT, OP, PREOP, SAFEOP, SimTerminal, WireFaults
+from sim.loop import SimStall
 from sim.seams import Env
 
 PROPERTY = "C14"
 LEVEL = "exploration"
-SCENARIOS = {"single": 1, "concurrent": 1}
+SCENARIOS = {"single": 2, "concurrent": 2, "group": 1}
 TIERS = {"quick": {"runs": 20000, "chunk": 60}, "thorough": {"runs": 50000000, "wall_s": 600, "chunk": 300, "recheck": 16}}
 RULE = ("one run = 1-4 simulated terminals, each starting in INIT/PRE-OP/SAFE-OP/OP with or "
         "without error flag, each transition taking 0..5 status polls, an error appearing "
@@ -98,7 +99,141 @@ def judge(log, target, outcome, start_state, start_error):
     return None
 
 
+def run_group(tape):
+    """the state machine as a sync group walks it: a real slow SyncGroup over 1-3 terminals
+    (read-write or read-only) that are found in any state, may carry an error, need 0..k
+    polls per transition, refuse a transition or raise an error at some poll. Judged on
+    every terminal's AL control/status history: OPERATIONAL is requested only after a
+    status read reported SAFE-OPERATIONAL without error, and an error reported while the
+    group brings its terminals up ends the group's task with EtherCatError"""
+    from ebpfcat.ebpfcat import SyncGroup
+    from ebpfcat.ethercat import EtherCat, EtherCatError
+    from . import wl_groups as wl
+    from .c21 import build_devices
+
+    env = Env(tape, faults=WireFaults(delay_buckets=(50e-6, 20e-6, 150e-6, 600e-6)))
+    world = env.world
+    ec = EtherCat("sim0")
+    specs = wl.gen_specs(tape, "c14g", max_terms=3, max_sz=6)
+    sims, terms = wl.build(env, ec, specs)
+    cfgs = []
+    for st in sims:
+        st.al_state = tape.pick("c14/start", ORDER)
+        st.al_error = tape.chance("c14/start-error", 25)
+        code0 = tape.chance("c14/status-code-zero", 30)
+        st.al_code = (0 if code0 else 0x1a) if st.al_error else 0
+        maxd = tape.draw("c14/maxdelay", 4)
+        st.al_delay = lambda frm, to, maxd=maxd: tape.draw("c14/delay", maxd + 1)
+        fault_kind = tape.draw("c14/fault-kind", 5)
+        if fault_kind == 3:
+            poll_no = 1 + tape.draw("c14/fault-poll", 8)
+            cnt = [0]
+
+            def spont(cnt=cnt, poll_no=poll_no, code0=code0):
+                cnt[0] += 1
+                return (-1 if code0 else 0x1b) if cnt[0] == poll_no else 0
+            st.al_spontaneous_error = spont
+        elif fault_kind == 4:
+            bad = tape.pick("c14/refuse", [PREOP, SAFEOP, OP])
+            st.al_fail = lambda frm, to, bad=bad, code0=code0: \
+                (-1 if code0 else 0x1d) if to == bad and frm != to else 0
+        cfgs.append((st.al_state, st.al_error, fault_kind))
+    links = wl.gen_links(tape, specs, "c14g", max_vars=2)
+    if not links:
+        links = [dict(term=0, sm="in" if specs[0]["in_sz"] else "out", pos=0, size="B")]
+    devices = build_devices(tape, terms, links, "c14g")
+    rw = {ln["term"] for ln in links if ln["sm"] == "out"}
+    used = {ln["term"] for ln in links}
+    outcome = [None]
+    cycles = [0]
+
+    async def main(loop):
+        await ec.connect()
+        sg = SyncGroup(ec, devices)
+        orig = sg.update_devices
+
+        def update_devices(data):
+            cycles[0] += 1
+            return orig(data)
+        sg.update_devices = update_devices
+        task = sg.start()
+        done, pending = await asyncio.wait([task], timeout=0.15)
+        if pending:
+            outcome[0] = "running"
+            task.cancel()
+            await asyncio.wait([task], timeout=0.5)
+        elif task.cancelled():
+            outcome[0] = "cancelled"
+        else:
+            e = task.exception()
+            outcome[0] = "returned" if e is None else type(e).__name__
+            outcome.append(str(e))
+        await asyncio.sleep(0.02)
+
+    violations = []
+
+    def viol(rule, detail, **params):
+        if not violations:
+            violations.append({"rule": rule, "params": params, "detail": detail})
+
+    with env:
+        try:
+            env.run(main)
+        except SimStall as e:
+            viol("never-returned", f"group start-up: {e}", scenario="group")
+        loop_exc = env.loop_exceptions()
+    error_seen = None
+    for k, st in enumerate(sims):
+        if k not in used:
+            continue
+        log = st.al_log
+        pos = 0
+        if log and log[0][0] == "r" and log[0][1] & 0x10:
+            pos = 2 if len(log) > 1 and log[1] == ("w", 0x11) else 1
+        safeop_confirmed = False
+        for i, (kind, v) in enumerate(log):
+            if i < pos:
+                continue
+            if kind == "r":
+                if v & 0x10 and error_seen is None and not any(
+                        kk == "w" and vv & 0xf == OP for kk, vv in log[:i]):
+                    error_seen = (k, i, v)
+                if v & 0xf in (SAFEOP, OP) and not v & 0x10:
+                    safeop_confirmed = True
+            elif v & 0xf == OP and not safeop_confirmed:
+                viol("next-request-before-confirmation",
+                     f"T{k} (start {cfgs[k]}): OPERATIONAL requested before a status read "
+                     f"reported SAFE-OPERATIONAL; AL log {log[:24]}", scenario="group")
+    if error_seen is not None and outcome[0] != "EtherCatError":
+        k, i, v = error_seen
+        viol("error-not-raised",
+             f"T{k} (start {cfgs[k]}) reported an error (status {v:#x}, event {i}) while the "
+             f"group brought it up, the group's task ended as {outcome[0]!r} after "
+             f"{cycles[0]} cycles; AL log {sims[k].al_log[:24]}", scenario="group")
+    if error_seen is None and outcome[0] not in ("running", None) and not violations:
+        viol("raised-without-error", f"the group's task ended as {outcome} although no "
+             f"terminal reported an error; logs {[st.al_log[:12] for st in sims]}",
+             scenario="group")
+    for m, tn, txt in loop_exc:
+        if tn != "CancelledError":
+            viol("library-task-died", f"{m}: {txt}", exception=tn, scenario="group")
+    writes = sum(1 for st in sims for kind, _ in st.al_log if kind == "w")
+    return {
+        "violations": violations, "stats": dict(world.counters),
+        "digest": world.digest.hexdigest(), "sim_time": world.now,
+        "schedule": repr(cfgs) + repr([st.al_log for st in sims]),
+        "nontrivial": writes > 0,
+        "sample": {"scenario": "group", "terminals": [
+            {"start": NAMES[c[0]], "error": c[1], "rw": k in rw,
+             "fault": ["none", "none", "none", "error-at-poll", "refused-transition"][c[2]],
+             "al_log": sims[k].al_log[:20]} for k, c in enumerate(cfgs)],
+            "outcome": outcome[0], "cycles": cycles[0]},
+    }
+
+
 def run(tape, scenario):
+    if scenario == "group":
+        return run_group(tape)
     from ebpfcat.ethercat import EtherCat, EtherCatError, MachineState, Terminal
 
     wf = WireFaults(delay_buckets=(50e-6, 20e-6, 150e-6, 600e-6))
@@ -112,21 +247,35 @@ def run(tape, scenario):
         err = tape.chance("c14/start-error", 25)
         t.al_state = start
         t.al_error = err
-        t.al_code = 0x1a if err else 0
+        # the AL status code that goes with an error: some terminals leave it at 0
+        code0 = tape.chance("c14/status-code-zero", 30)
+        t.al_code = (0 if code0 else 0x1a) if err else 0
         maxd = tape.draw("c14/maxdelay", 6)
-        t.al_delay = lambda frm, to, maxd=maxd: tape.draw("c14/delay", maxd + 1)
+        # a transition may take very long (firmware start, drive enabling): in few runs
+        # one transition needs more than a thousand polls
+        slow_at = tape.draw("c14/slow-transition", 3) if tape.chance("c14/very-slow", 4) else None
+        ntrans = [0]
+
+        def al_delay(frm, to, maxd=maxd, slow_at=slow_at, ntrans=ntrans):
+            ntrans[0] += 1
+            if slow_at is not None and ntrans[0] - 1 == slow_at:
+                world.count("c14/transition-over-1000-polls")
+                return 1001 + tape.draw("c14/slow-polls", 300)
+            return tape.draw("c14/delay", maxd + 1)
+        t.al_delay = al_delay
         fault_kind = tape.draw("c14/fault-kind", 5)   # 0,1,2: none
         if fault_kind == 3:
             poll_no = 1 + tape.draw("c14/fault-poll", 12)
             cnt = [0]
 
-            def spont(cnt=cnt, poll_no=poll_no):
+            def spont(cnt=cnt, poll_no=poll_no, code0=code0):
                 cnt[0] += 1
-                return 0x1b if cnt[0] == poll_no else 0
+                return (-1 if code0 else 0x1b) if cnt[0] == poll_no else 0
             t.al_spontaneous_error = spont
         elif fault_kind == 4:
             bad = tape.pick("c14/refuse", [PREOP, SAFEOP, OP])
-            t.al_fail = lambda frm, to, bad=bad: 0x1d if to == bad and frm != to else 0
+            t.al_fail = lambda frm, to, bad=bad, code0=code0: \
+                (-1 if code0 else 0x1d) if to == bad and frm != to else 0
         target = tape.pick("c14/target", [OP, SAFEOP, PREOP])
         terms.append(t)
         cfgs.append((start, err, target, maxd, fault_kind))
@@ -152,9 +301,9 @@ def run(tape, scenario):
             for k in range(n):
                 tasks.append(asyncio.ensure_future(drive(k)))
                 await asyncio.sleep([0, 30e-6, 200e-6][tape.draw("c14/gap", 3)])
-            await asyncio.wait(tasks, timeout=5)
+            await asyncio.wait(tasks, timeout=20)
         else:
-            await asyncio.wait_for(asyncio.gather(*[drive(k) for k in range(n)]), 5)
+            await asyncio.wait_for(asyncio.gather(*[drive(k) for k in range(n)]), 20)
 
     violations = []
     with env:
